@@ -30,9 +30,11 @@ Fixpoint binsearch_loop (fuel : nat) (U : list T) (u : T) (low high mid : nat) :
       else binsearch_loop f U u mid high (Nat.div2 (Nat.add mid high))
     else Some mid
   end.
+(* the end-of-domain shortcut is  `if knot >= knot_vector[n + 1]: return n`  (repaired code, /repo b25d1c5; the pinned code
+   tested abs(kv[n+1] - knot) <= tol).  tol only enters the rounding of the first mid point, which is exact here. *)
 Definition find_span_binsearch (tol : T) (p : nat) (U : list T) (num : nat) (u : T) : option nat :=
   let n := Nat.pred num in
-  if oleb K (oabs K (kn U (S n) - u)) tol then Some n
+  if oleb K (kn U (S n)) u then Some n
   else binsearch_loop (S (S (length U))) U u p num (Nat.div2 (S (Nat.add p num))).
 
 (* ---- helpers.find_multiplicity ---- *)
